@@ -32,7 +32,10 @@ Rows(shape) ==
      IN [l1 |-> i, l2 |-> j, vals |-> [k \in 1..shape[3] |-> Tok(shape, i, j, k - 1)]]]
 Table(ep, shape) == [header |-> Header(ep, shape[3]), rows |-> Rows(shape)]
 
-Init == fs = [p \in {} |-> 0] /\ last = [res |-> "none"]
+\* the writable path already holds an older, longer export: a save REPLACES the file (Save sets fs[path] to the new table),
+\* it does not write over its beginning -- OneRowPerCell would count the stale rows
+Stale == Table("csv", <<3, 50, 2>>)
+Init == fs = [p \in {"ok"} |-> Stale] /\ last = [res |-> "none"]
 Save(ep, shape, path) ==
   IF path = "ok"
   THEN /\ fs' = [p \in (DOMAIN fs) \cup {path} |-> IF p = path THEN Table(ep, shape) ELSE fs[p]]
